@@ -8,7 +8,9 @@ PROP = {
     "theorems": ["Gnmi.C05." + t for t in [
         "once_static_exact", "walkItems_mem", "once_origin_conflict", "walk_fold", "insertHandle_walk", "pump_drains",
         "once_static_exact_reachable", "walk_targets_reachable", "walk_functional_reachable", "walk_item_source", "reachable_owner"]] + ["Gnmi.Feed.step_names", "Gnmi.Feed.get_of_mem"],
-    "components": [su_component(""), su_component("c08", 150, 1500)],
+    "components": [su_component(""), su_component("c08", 150, 1500),
+                   # coalesce.go is anchored here too: the queue under its window hooks (C11 is its own property)
+                   {"c": "co", "quick": {"n": 1500}, "thorough": {"n": 8000, "seeds": 2}}],
     "monitor": "spec", "level": "proof",
     "trusted_base": SUB_TB, "assumptions": SUB_ASSUMPTIONS + [
         "once_static_exact assumes that a stored notification carries its target's name in the prefix and that a leaf has one value (Functional); "
